@@ -202,10 +202,10 @@ func (p *parser) parse() (err error) {
 
 func (p *parser) pegText(node *node32) string {
 	for n := node; n != nil; n = n.next {
-		if s := p.pegText(n.up); s != "" {
-			return s
-		}
 		if n.pegRule != rulePegText {
+			if s := p.pegText(n.up); s != "" {
+				return s
+			}
 			continue
 		}
 
@@ -485,7 +485,8 @@ func (p *parser) parseConstValue(node *node32) (cv *ConstValue, err error) {
 	// DoubleConstant / IntConstant / Literal / Identifier / ConstList / ConstMap
 	switch node.pegRule {
 	case ruleDoubleConstant:
-		double, _ := strconv.ParseFloat(p.pegText(node), 64)
+		// the nested IntConstant rule of an exponent leaves trailing blanks inside the capture
+		double, _ := strconv.ParseFloat(strings.TrimRight(p.pegText(node), " \t\v"), 64)
 		return &ConstValue{Type: ConstType_ConstDouble, TypedValue: &ConstTypedValue{Double: &double}}, nil
 	case ruleIntConstant:
 		i, err := strconv.ParseInt(p.pegText(node), 0, 64)
